@@ -10,6 +10,7 @@ pub mod pexpr;
 pub mod pglob;
 pub mod pnum;
 pub mod pprintf;
+pub mod pstat;
 pub mod ptime;
 pub mod pregex;
 pub mod pwalk;
@@ -43,6 +44,7 @@ pub fn get(name: &str) -> Option<Box<dyn Prop>> {
         "C14" => Some(Box::new(pnum::PNum::default())),
         "C15" => Some(Box::new(ptime::PTime::default())),
         "C16" => Some(Box::new(pprintf::PPrintf::default())),
+        "C13" => Some(Box::new(pstat::PStat::default())),
         "C04" => Some(Box::new(p04::P04::default())),
         "C05" => Some(Box::new(p05::P05::default())),
         "C19" => Some(Box::new(p19::P19::default())),
